@@ -354,6 +354,10 @@ inductive Outcome
   | panic
   deriving DecidableEq, Repr
 
+def Outcome.isOk : Outcome → Bool
+  | .ok _ => true
+  | _ => false
+
 /-- one API call on an existing driver; the journal and raw index start afresh -/
 def runOp (t : Transport) (fails : Nat → Bool) (w : World) (op : Op) : World × Outcome :=
   let w := { w with idx := 0, journal := [] }
